@@ -293,7 +293,9 @@ impl Node {
                 tokio::time::sleep(Duration::from_micros(50)).await;
             }
         }
-        // canonical order: what leaves real code is a set
+        // canonical order: what leaves real code is a set (each announcement chunk is sent by
+        // its own spawned task, so their channel order is the runtime's choice)
+        self.outbox.sort_by_key(|(rb, c)| (*rb, c.actor_id, c.versions().start().0, c.seqs().map(|s| s.start().0).unwrap_or(0)));
         self.apply_backlog.sort();
         self.apply_backlog.dedup();
         self.clear_backlog
